@@ -1,3 +1,6 @@
 import XProofs.Properties.C19
 #print axioms Properties.C19.C19_agree
 #print axioms Properties.C19.C19_div_guard
+#print axioms Properties.C19.C19_full_paren_parse
+#print axioms Properties.C19.C19_full_paren_value
+#print axioms Properties.C19.C19_parser_range
